@@ -3,6 +3,7 @@
 From Coq Require Import List String.
 From Tealer Require Import Syntax Cfg Analysis Regex RegexLemmas.
 Import ListNotations.
+Open Scope list_scope.
 
 (* matches = exactly the reachable straight-line occurrences, no duplicates; covered instructions all lie on a
    path from the start to a match; every reachable match is reached by a path through covered instructions *)
@@ -10,7 +11,7 @@ Theorem C20_matches_and_covered : forall fuel t label regex start ms cov,
   find_regex_label t label = Some start ->
   match_regex fuel t label regex = Done (ms, cov) ->
   (forall m, In m ms <-> exists k, Reach (t_prog t) start k /\ is_match (t_prog t) (Some k) regex = true /\
-                                   m = collect_match (t_prog t) k (Nat.pred (length regex))) /\
+                                   m = collect_match (t_prog t) k (Nat.pred (List.length regex))) /\
   NoDup ms /\
   (forall c, In c cov -> Reach (t_prog t) start c /\ exists k, ReachPlus (t_prog t) c k /\ is_match (t_prog t) (Some k) regex = true) /\
   (forall k, Reach (t_prog t) start k -> is_match (t_prog t) (Some k) regex = true -> CPath (t_prog t) cov start k).
@@ -18,8 +19,8 @@ Proof. exact match_regex_spec. Qed.
 
 (* each reported match lists the pattern's instructions in order along unique-successor links, same class and text *)
 Theorem C20_match_listing : forall p regex k, regex <> [] -> is_match p (Some k) regex = true ->
-  let l := collect_match p k (Nat.pred (length regex)) in
-  length l = length regex /\ hd_error l = Some k /\
+  let l := collect_match p k (Nat.pred (List.length regex)) in
+  List.length l = List.length regex /\ hd_error l = Some k /\
   (forall i a b, nth_error l i = Some a -> nth_error l (S i) = Some b -> single_next p a = Some b) /\
   (forall i a r, nth_error l i = Some a -> nth_error regex i = Some r -> exists o, op_at p a = Some o /\ is_equal o r = true).
 Proof. exact match_listing. Qed.
